@@ -16,7 +16,7 @@ enum Site : int {
   T_PUB1 = 9, T_PUB2 = 10, T_PUB3 = 11, T_PUB4 = 12, T_AFTER_BUFFER = 13,
   T_AFTER_READY = 14, T_LOST_CAS = 15, T_SPIN_BEFORE = 16, T_SPIN_ADVANCE = 17,
   T_SPIN_AFTER = 18, T_TIMED_OUT = 19, T_ARE_READY = 20, T_ALLOC_PROBE = 21,
-  L_GET = 40, L_SET = 41, TA_FAIL_ALLOC = 50,
+  LIM_GET = 40, LIM_SET = 41, TA_FAIL_ALLOC = 50,
   B_FIRST = 101, B_SIMPLE_ABS = 101, B_CANPARSE_FAST = 102, B_PATH_URL = 103,
   B_PATH_AGG = 104, B_IPV4_FAST = 105, B_HOST_URL = 106, B_HOST_AGG = 107,
   B_TABS = 108, B_NFC = 109, B_PCT_INDEX = 110, B_HREF_FAST = 111,
@@ -58,6 +58,12 @@ struct HookState {
   uint32_t prob256 = 256;   // firing probability per call, /256
   Rng rng{0};
   bool fail_alloc = false;  // TA: next table allocation "fails"
+  // A shortcut is a pure function: within one operation it either is available
+  // or it is not.  Decisions are therefore drawn once per (site, operation step)
+  // and reused, otherwise the simulator would create executions no deterministic
+  // implementation of the shortcut can produce (e.g. "first call declines, the
+  // nested second call on the same bytes succeeds").
+  int8_t decided[64];
   uint32_t reached[kMaxSite] = {0};  // buggify calls per site
   uint32_t fired[kMaxSite] = {0};    // buggify calls that answered 1
   uint32_t probes[kMaxSite] = {0};   // probe / yield hits per site
@@ -66,7 +72,9 @@ struct HookState {
     memset(fired, 0, sizeof fired);
     memset(probes, 0, sizeof probes);
   }
+  void new_step() { memset(decided, -1, sizeof decided); }
   void configure(uint64_t m, uint32_t p256, uint64_t seed) {
+    new_step();
     active = m != 0;
     mask = m;
     prob256 = p256;
